@@ -413,7 +413,9 @@ func (p *Parser) printStatement() (StatementPrint, error) {
 			return StatementPrint{}, err
 		}
 		if ended {
-			break
+			// the end of the statement may have been consumed (';'): remember it
+			p.didEndStatement = true
+			return StatementPrint{startToken, args}, nil
 		}
 		expr, err := p.expression()
 		if err != nil {
